@@ -54,10 +54,11 @@ def exhaustive(tier):
 
 
 def required(tier):
-    k = 1 if tier == "quick" else 20
-    return {"value_checks": 4000 * k, "metamorphic_checks": 3000 * k, "unit_checks": 4000 * k,
-            "mutation_checks": 8000 * k, "error_checks": 500 * k, "offset_checks": 300 * k,
-            "functions_checked": 190}
+    k = 1 if tier == "quick" else 12
+    return {"value_checks": 30000 * k, "metamorphic_checks": 15000 * k, "unit_checks": 30000 * k,
+            "mutation_checks": 60000 * k, "error_checks": 1500 * k, "offset_checks": 4000 * k,
+            "functions_checked": 200, "functions_error_checked": 70,
+            "functions_offset_checked": 140, "variants_checked": 480}
 
 
 def shards(tier, seed):
@@ -66,22 +67,22 @@ def shards(tier, seed):
     n_main = 6 if q else 10
     for i in range(n_main):
         out.append({"mode": "main", "cfg": "default", "part": i, "parts": n_main,
-                    "reps": 6 if q else 260, "name": f"main-default-{i}"})
+                    "reps": 24 if q else 400, "name": f"main-default-{i}"})
     for cfg in ("force_ndarray", "force_ndarray_like"):
         n = 2 if q else 3
         for i in range(n):
             out.append({"mode": "main", "cfg": cfg, "part": i, "parts": n,
-                        "reps": 2 if q else 60, "name": f"main-{cfg}-{i}"})
+                        "reps": 8 if q else 100, "name": f"main-{cfg}-{i}"})
     n = 3 if q else 4
     for i in range(n):
         out.append({"mode": "error", "cfg": "default", "part": i, "parts": n,
-                    "reps": 3 if q else 120, "name": f"error-{i}"})
+                    "reps": 12 if q else 200, "name": f"error-{i}"})
     n = 2 if q else 3
     for i in range(n):
         out.append({"mode": "offset", "cfg": "default", "part": i, "parts": n,
-                    "reps": 3 if q else 120, "name": f"offset-{i}"})
+                    "reps": 10 if q else 160, "name": f"offset-{i}"})
     out.append({"mode": "offset", "cfg": "autoconvert", "part": 0, "parts": 1,
-                "reps": 1 if q else 40, "name": "offset-autoconvert"})
+                "reps": 4 if q else 60, "name": "offset-autoconvert"})
     return out
 
 
@@ -131,9 +132,15 @@ def run_shard(spec, rec):
 
     # -- coverage of pint's handled names by the table ---------------------------------------
     names = []
-    for n in NF.HANDLED_FUNCTIONS:
-        names.append(("func", n))
     unreachable = []
+    for n in NF.HANDLED_FUNCTIONS:
+        f = np
+        for part in n.split("."):
+            f = getattr(f, part, None)
+        if f is None:
+            unreachable.append(n)       # registered by pint but absent from this NumPy (trapz)
+        else:
+            names.append(("func", n))
     for n in NF.HANDLED_UFUNCS:
         if isinstance(getattr(np, n, None), np.ufunc):
             names.append(("ufunc", n))
@@ -168,6 +175,8 @@ def run_shard(spec, rec):
         rec.observe("table_entries_not_handled_by_pint", f"{k[0]}:{k[1]}")
 
     # -- helpers -------------------------------------------------------------------------------
+    OFFSET_UNITS = {"degree_Celsius", "degree_Fahrenheit"}
+
     def isq(x):
         return hasattr(x, "_units") and hasattr(x, "_magnitude")
 
@@ -209,14 +218,11 @@ def run_shard(spec, rec):
         fname, ff, foff = frame
 
         def fn(q):
-            a = assign[id(q)]
-            if a is None:
-                m = q.base.copy()
-            else:
-                name, f, off = a
-                m = q.base / f - off
-                if (name, f, off) != frame:
-                    m = (m + off) * f / ff - foff
+            a = assign[id(q)] or ("bare", 1.0, 0.0)      # a bare number is a dimensionless value
+            name, f, off = a
+            m = q.base / f - off
+            if (name, f, off) != frame:
+                m = (m + off) * f / ff - foff
             return float(m) if q.py else np.array(m, dtype=float)
         return walk(call.args, fn), walk(call.kwargs, fn)
 
@@ -318,6 +324,9 @@ def run_shard(spec, rec):
         """-> list of leaves ('q', root magnitudes, dims, unit-name) | ('b', value) ;
         raises Mismatch('unit'|'offset', ...)"""
         if isinstance(rspec, T.Seq):
+            if (isq(got) or isinstance(got, np.ndarray)) and np.ndim(got) >= 1 \
+                    and np.shape(got)[0] == len(rspec.items):
+                got = [got[i] for i in range(len(rspec.items))]   # stacked: unpacks like a tuple
             if not isinstance(got, (tuple, list)) or len(got) != len(rspec.items):
                 raise Mismatch("unit", f"expected a sequence of {len(rspec.items)} results, got "
                                        f"{type(got).__name__}: {short(got)}")
@@ -328,6 +337,11 @@ def run_shard(spec, rec):
         if isinstance(rspec, T.U):
             want = dims_of(rspec, fams)
             if isq(got):
+                uc = dict(got._units)
+                nonmult = [k for k in uc if k in OFFSET_UNITS]
+                if nonmult and (len(uc) > 1 or any(abs(float(v) - 1.0) > 1e-12 for v in uc.values())):
+                    raise Mismatch("offset", f"result carries an offset unit inside a compound "
+                                             f"unit: {got.units!r}")
                 try:
                     r = got.to_root_units()
                     d = {k: float(v) for k, v in dict(got.dimensionality).items()}
@@ -412,7 +426,8 @@ def run_shard(spec, rec):
     def describe(call, assign):
         def fn(q):
             a = assign[id(q)]
-            return f"<{q.role}:{a[0] if a else 'bare'}:{short(q.base.tolist(), 80)}>"
+            m = q.base if a is None else q.base / a[1] - a[2]     # magnitude as passed to pint
+            return f"<{q.role}:{a[0] if a else 'bare'}:{short(np.round(m, 6).tolist(), 80)}>"
         return short(walk([call.args, call.kwargs], fn), 700)
 
     def choose(g, call, fams, how, keep=None, like=None):
@@ -431,7 +446,7 @@ def run_shard(spec, rec):
                 u = per_role.setdefault(q.role, g.r.choice(units))
             else:
                 u = g.r.choice(units)
-            if q.bare_ok and i > 0 and g.r.random() < 0.3:
+            if (q.bare_ok and i > 0 and g.r.random() < 0.3) or q.always_bare:
                 u = None
             assign[id(q)] = u
         return assign
@@ -462,6 +477,10 @@ def run_shard(spec, rec):
         lst = qas(call)
         if not lst:
             return
+        for i, q in enumerate(lst):
+            # scalar companions (bounds, initial, fill values ...) also as Python-float quantities
+            if q.base.ndim == 0 and (i > 0 or cfg != "default") and g.r.random() < 0.4:
+                q.py = True
         how = var.assign or g.r.choice(["free", "free", "free", "same", "root"])
         a1 = choose(g, call, fams, how)
         if all(v is None for v in a1.values()):
@@ -603,10 +622,13 @@ def run_shard(spec, rec):
         used = {fams[r] for r in set(roles)}
         foreign = g.r.choice([f for f in T.DIMFAMS if f not in used])
         a = choose(g, call, fams, "free")
-        probes = [("redimensioned", dict(a, **{id(victim): g.r.choice(T.FAM[foreign][1])}))]
+        probes = [("redimensioned", {**a, id(victim): g.r.choice(T.FAM[foreign][1])})]
         others_q = [q for q in lst if q is not victim]
-        if victim.role in "XYZ" and others_q and roles.count(victim.role) >= 2:
-            probes.append(("bare", dict(a, **{id(victim): None})))
+        # bare probe: the first unit-carrying argument stays a Quantity so that the call still
+        # reaches pint (np.pad(ndarray, constant_values=Q) etc. never dispatch to pint)
+        if victim.role in "XYZ" and victim is not lst[0] and roles.count(victim.role) >= 2 \
+                and not getattr(victim, "nobare", False):
+            probes.append(("bare", {**a, id(victim): None}))
         for pname, a_ in probes:
             args, kwargs = realize(call, a_)
             if pname == "bare":
@@ -643,8 +665,10 @@ def run_shard(spec, rec):
                                   variant=label, probe=pname)
 
     # -- offset mode ---------------------------------------------------------------------------
+    OFFMECH = "offset_not_autoconverted" if cfg == "autoconvert" else "offset_not_refused"
+
     def run_offset(ent, label, var, g):
-        if not (var.offset and var.homog):
+        if not (var.offset and var.homog) or var.assign == "same":
             return
         call = var.build(g)
         lst = qas(call)
@@ -664,6 +688,11 @@ def run_shard(spec, rec):
             a_c[id(q)] = g.r.choice([degc, degf, degc, degf, kel])
         if all(a_c[id(q)] == kel for q in xs):
             a_c[id(g.r.choice(xs))] = g.r.choice([degc, degf])
+        if var.truth:
+            # truth-value functions: 0 degC is 273.15 K - "zero" depends on the frame
+            for q in xs:
+                q.base = np.where(g.mask(q.base.shape, 0.5), 273.15, q.base)
+                a_c[id(q)] = degc
         rspec = var.res(call) if callable(var.res) else var.res
         args, kwargs = realize(call, a_k)
         oc_k, got_k = outcome(lambda: invoke(ent, var, args, kwargs))
@@ -700,22 +729,22 @@ def run_shard(spec, rec):
         except Mismatch as m:
             rec.observe("outcomes", "offset->returned_compound_offset_unit"
                         if m.clause == "offset" else "offset->unit_mismatch")
-            rec.violation("offset_not_refused",
+            rec.violation(OFFMECH,
                           dict(wit, problem=m.msg, got=short(got), kelvin_run=short(got_k)),
                           function=ent.name, kind=ent.kind, clause="offset", variant=label,
                           how="compound_offset_unit" if m.clause == "offset" else "wrong_unit")
             return
         except Exception as e:  # noqa: BLE001
-            rec.violation("offset_not_refused", dict(wit, problem=short(e), got=short(got)),
+            rec.violation(OFFMECH, dict(wit, problem=short(e), got=short(got)),
                           function=ent.name, kind=ent.kind, clause="offset", variant=label,
                           how="unusable_result")
             return
-        if leaves_equal(lc, lk, 1e-8):
+        if leaves_equal(lc, lk, max(1e-8, var.tol)):
             rec.observe("outcomes", "offset->ok_equal_to_kelvin")
             rec.count("offset_equal")
         else:
             rec.observe("outcomes", "offset->returned_different")
-            rec.violation("offset_not_refused",
+            rec.violation(OFFMECH,
                           dict(wit, got=short(got), got_root=short([x[1] for x in lc]),
                                kelvin_run=short(got_k)),
                           function=ent.name, kind=ent.kind, clause="offset", variant=label,
@@ -737,6 +766,9 @@ def run_shard(spec, rec):
                     rec.count("harness_errors")
                     rec.observe("harness_errors", f"{ent.kind}:{ent.name}:{label}:"
                                                   f"{type(e).__name__}:{short(e, 120)}")
+                    if rec.counters.get("harness_errors", 0) == 1:
+                        # a case the harness could not evaluate is never a pass
+                        rec.inconc("harness error (first of possibly several): "
+                                   + traceback.format_exc()[-700:])
                     if rec.counters.get("harness_errors", 0) > 40:
-                        rec.inconc("harness errors: " + traceback.format_exc()[-600:])
                         return
